@@ -74,7 +74,7 @@ InsertAnon(ch, n) ==
   IF n = 0 THEN ch
   ELSE LET m == Len(ch)
            room == IF ch[m].cap = 0 THEN n ELSE ch[m].cap + 1 - ch[m].n     \* inserts until this filter grows
-       IN IF n < room THEN [ch EXCEPT ![m].n = @ + n]
+       IN IF ch[m].cap = 0 \/ n < room THEN [ch EXCEPT ![m].n = @ + n]
           ELSE InsertAnon(Append([ch EXCEPT ![m].n = @ + room], [cap |-> ch[m].cap * GF, n |-> 0, pos |-> {}]), n - room)
 
 NewChain(c) == << [cap |-> c.cap, n |-> 0, pos |-> {}] >>
@@ -205,7 +205,7 @@ ChainMonotone == [][/\ Len(chain') >= Len(chain)
                     /\ \A i \in 1..(Len(chain) - 1) : chain'[i] = chain[i]
                     /\ \A i \in 1..Len(chain) : chain[i].pos \subseteq chain'[i].pos]_vars
 \* Count(): total inserts = the sum over the chain (exact trackers: number of marked keys)
-CountRight == /\ Exact => total = Cardinality(Seen(chain))
+CountRight == /\ Exact => Cardinality(Seen(chain)) <= total /\ (cfg.roots # <<>> => Cardinality(Seen(chain)) = total)
               /\ LET RECURSIVE Sum(_)
                      Sum(i) == IF i = 0 THEN 0 ELSE chain[i].n + Sum(i - 1)
                  IN total = Sum(Len(chain))
